@@ -117,7 +117,13 @@ RULE = (
     "for repeated requests, one OneDGrid and one degrees list for all atoms of a molecule; complex128 / complex64 / longdouble function values "
     "(linearity; the Cartesian report of complex data is recorded as information); rejected requests (wrong sizes, orders, shapes, index, kind) before and "
     "between accepted ones; radial grids made by the library's transforms (r from 1e-5 to 1e5, r^2 w up to 1e14; nodes at the trimmed 1e16 are "
-    "outside the measured envelope), nuclei 0.3 and 40 bohr apart in one molecule"
+    "outside the measured envelope), nuclei 0.3 and 40 bohr apart in one molecule. "
+    "Round 5: 1025 and 4097 (thorough 20001, 65537, 2^19 + 1) evaluation points against the point-by-point reference and against the request split in two, "
+    "1025 (4097) radial shells, 1025 stacked functions; radial nodes descending / shuffled / as made by a decreasing library map (per-shell clauses; the "
+    "spline entry points reject), evaluation points permuted; float16 and longdouble points / centre / func_vals given directly (unchanged, second "
+    "request equal); evaluation at 3 and 100 r_max and at 0.1 and 1e-3 r_min; one func_vals / points / centre buffer and one degrees / centre array "
+    "overwritten in place between requests / constructions; pairs of grids alive that differ only in the radial grid, the centre or the method "
+    "(Lebedev 3 / spherical 3-design: equal sizes)"
 )
 TRUSTED_BASE = [
     "Lean 4.33 kernel; axioms propext, Classical.choice, Quot.sound only (audited per theorem)",
@@ -657,10 +663,22 @@ def _r2_history(ctx, M, add, g, info):
 def _pair_infos(ctx, M):
     """two parameter sets with the same (l_max, size, number of shells, method) but different grid angles"""
     rng = ctx.rng
-    kind = rng.choice(["rotate", "permute", "first-node"])
-    _, a = _atom_grid(ctx, M, n=rng.choice([3, 4]), mixed=True, cap=9, zero_kind="zero" if kind == "first-node" else rng.choice(["none", "zero"]),
-                      rotate=rng.choice([0, 5, 41]) if kind != "first-node" else rng.choice([3, 77]))
+    # round 5 (class 26): also another radial grid with the same angular set-up, another centre, another method with the same sizes
+    kind = rng.choice(["rotate", "permute", "first-node", "radial", "center", "method"])
+    if kind == "method":
+        # Lebedev degree 3 and the spherical 3-design both have 6 points
+        _, a = _atom_grid(ctx, M, n=rng.choice([3, 4]), method="lebedev", degs=[3], zero_kind=rng.choice(["none", "zero"]), rotate=rng.choice([0, 5, 41]))
+    else:
+        _, a = _atom_grid(ctx, M, n=rng.choice([3, 4]), mixed=True, cap=9, zero_kind="zero" if kind == "first-node" else rng.choice(["none", "zero"]),
+                          rotate=rng.choice([0, 5, 41]) if kind != "first-node" else rng.choice([3, 77]))
     b = dict(a)
+    if kind == "method":
+        b["method"] = "spherical"
+    if kind == "radial":
+        b["r"] = [x * 1.375 for x in a["r"]]
+        b["w"] = [x * 0.75 for x in a["w"]]
+    if kind == "center":
+        b["center"] = [a["center"][0] + 0.5, a["center"][1], a["center"][2] - 0.25]
     if kind == "permute":
         degs = list(a["degs"])
         perm = degs[1:] + degs[:1]
@@ -1642,6 +1660,7 @@ def corr(ctx: Ctx):
     parts.run("atomgrid:round2", lambda: _corr_round2(ctx, M, add))
     parts.run("atomgrid:round3", lambda: _corr_round3(ctx, M, add))
     _corr_round4(ctx, M, add, parts)
+    _corr_round5(ctx, M, add, parts)
     # the implementation-only comparisons above are done; a driver problem from here on cannot hide them
     answers = driver_batch(lines)
     for ans, fn in zip(answers, checks):
@@ -2077,6 +2096,22 @@ def _oracle_atom(ctx, M, g, info, bl, budget, label, derivs=True):
                  snippet=snip("interpolant = sum spline * Y", f"p = np.array({pts[j].tolist()!r})\nF = grid.interpolate(vals)\nspl = grid.radial_component_splines(vals)\n"
                               f"r, az, pol = angles(np.array([p - grid.center]))\nY = real_harmonics(int(max(grid.degrees)) // 2, az, pol)\n"
                               f"want = sum(float(spl[k](r[0])) * Y[k, 0] for k in range(len(spl)))\nassert abs(float(F(np.array([p]))[0]) - want) <= {1e-10 * sscale!r}"))
+    # (5b) round 5 (class 24): the evaluation points are independent of the radial grid — far beyond the last shell (the splines extrapolate their
+    #      last cubic piece) and deep inside the first shell with r > 0; tolerance per point (the extrapolated pieces grow like r^3)
+    rpos = r_nodes[r_nodes > 0]
+    uu = ctx.np_rng.normal(size=(4, 3))
+    uu /= np.linalg.norm(uu, axis=1)[:, None]
+    far = c + uu * np.array([[3.0 * rmax], [100.0 * rmax], [0.1 * float(rpos[0])], [1e-3 * float(rpos[0])]])
+    rr5, az5, pol5 = _angles(far - c)
+    Sf = np.array([s(rr5) for s in splines])
+    want5 = np.einsum("ij,ij->j", Sf[: Yind.shape[0]], real_harmonics(Lc, az5, pol5)[: len(splines)])
+    got5 = np.asarray(F(far), dtype=float)
+    tol5 = 1e-10 * (np.sum(np.abs(Sf), axis=0) + 1e-300)
+    ctx.tagc("oracle:far-and-inner-points")
+    if got5.shape != want5.shape or not np.all(np.abs(got5 - want5) <= tol5):
+        j = int(np.argmax(np.abs(np.nan_to_num(got5 - want5, nan=np.inf)) / tol5)) if got5.shape == want5.shape else 0
+        ctx.fail("oracle", "atomgrid.interpolate:is-sum", f"interpolant at {far[j].tolist()} (r = {rr5[j]!r}; radial nodes from {float(rpos[0])!r} to {rmax!r}) = {got5.reshape(-1)[j]!r}, sum_lm spline_lm(r) Y_lm = {want5[j]!r}",
+                 witness=dict(wit, point=far[j]), snippet=SNIP_PTS.format(info=info, bl=bl.to_json(), arr=far[j:j + 1].tolist(), tol=float(tol5[j])))
     # (6) derivatives against finite differences of the interpolant itself
     if derivs:
         _oracle_derivs(ctx, g, info, bl, F, splines, wit, budget)
@@ -2815,7 +2850,7 @@ HANDED = {
     "convert_cartesian_to_spherical(points)": ("    return grid.convert_cartesian_to_spherical(pts)", lambda g, v, P: g.convert_cartesian_to_spherical(P)),
     "integrate_angular_coordinates(f)": ("    return grid.integrate_angular_coordinates(vals)", lambda g, v, P: g.integrate_angular_coordinates(v)),
     "radial_component_splines(f)[0].c": ("    return grid.radial_component_splines(vals)[0].c", lambda g, v, P: g.radial_component_splines(v)[0].c),
-    "radial_component_splines(f)[1].x": ("    return grid.radial_component_splines(vals)[1].x", lambda g, v, P: g.radial_component_splines(v)[1].x),
+    "radial_component_splines(f)[-1].x": ("    return grid.radial_component_splines(vals)[-1].x", lambda g, v, P: g.radial_component_splines(v)[-1].x),
     "spherical_average(f).c": ("    return grid.spherical_average(vals).c", lambda g, v, P: g.spherical_average(v).c),
     "spherical_average(f).x": ("    return grid.spherical_average(vals).x", lambda g, v, P: g.spherical_average(v).x),
     "interpolate(f)(points)": ("    return grid.interpolate(vals)(pts)", lambda g, v, P: g.interpolate(v)(P)),
@@ -3140,6 +3175,312 @@ def _oracle_mol_extreme(ctx, M, budget):
             ctx.fail("oracle", "molgrid.interpolate:raises", f"MolGrid.interpolate with nuclei {[c.tolist() for c in cs]} raised {type(e).__name__}: {e}", witness=dict(infos=infos))
 
 
+# ----------------------------------------------------------------------------------------------
+# round 5: classes 21 (sizes past a block boundary), 22 (orders the code may assume), 23 (extended / reduced precision arguments given
+# directly), 24 (evaluation far outside / deep inside the radial range), 25 (one array object modified in place between two requests /
+# constructions), 26 (two instances differing in one hidden dependency — more pair kinds in _pair_infos)
+# ----------------------------------------------------------------------------------------------
+SNIP_BLOCKS = SNIP_HEAD + """
+rs = np.random.default_rng({seed!r})
+m = {m!r}
+d = rs.normal(size=(m, 3)); d /= np.linalg.norm(d, axis=1)[:, None]
+P = grid.center + d * (rs.uniform(0.05, 1.1, size=m) * grid.rgrid.points[-1])[:, None]
+F = grid.interpolate(vals)
+spl = grid.radial_component_splines(vals)
+r, az, pol = angles(P - grid.center)
+want = np.einsum('ij,ij->j', np.array([s(r) for s in spl]), real_harmonics(int(max(grid.degrees)) // 2, az, pol)[:len(spl)])
+got = np.asarray(F(P), dtype=float)
+assert got.shape == want.shape, (got.shape, want.shape)
+bad = np.nonzero(~(np.abs(got - want) <= {tol!r}))[0]
+assert bad.size == 0, (m, 'evaluation points; first wrong entries', bad[:5], got[bad[:5]], want[bad[:5]])
+"""
+
+
+def _oracle_blocks(ctx, M, budget):
+    """class 21: counts that are not a multiple of any 2^k or {1, 2, 5} 10^k and lie just above such values. Evaluation points of the
+    interpolant and of convert_cartesian_to_spherical (1025, 4097; thorough: 20001, 65537, 2^19 + 1) against the independent point-by-point
+    reference and against the same request split in two; 1025 (thorough 4097) radial shells; 1025 functions stacked in func_vals."""
+    rng = ctx.rng
+    big = budget == "large" or ctx.thorough
+    g, info = _atom_grid(ctx, M, n=3, method="lebedev", degs=[3, 5, 3], zero_kind="none", rotate=rng.choice([0, 2]))
+    bl = BandLimited(rng, 1, smooth=True)
+    vals = _grid_values(M, g, bl)
+    F = g.interpolate(vals.copy())
+    splines = g.radial_component_splines(vals.copy())
+    rmax = float(g.rgrid.points[-1])
+    Lc = int(max(g.degrees)) // 2
+    for m in ([1025, 4097] + ([20001, 65537, 2 ** 19 + 1] if big else [])):
+        seed = rng.randrange(10 ** 6)
+        rs = np.random.default_rng(seed)
+        d = rs.normal(size=(m, 3))
+        d /= np.linalg.norm(d, axis=1)[:, None]
+        P = g.center + d * (rs.uniform(0.05, 1.1, size=m) * rmax)[:, None]
+        ctx.count(["oracle-blocks", "points", m, info], nontrivial=True, tag=f"oracle:blocks:points:{m}")
+        rr, az, pol = _angles(P - g.center)
+        S0 = np.array([sp(rr) for sp in splines])
+        want = np.einsum("ij,ij->j", S0, real_harmonics(Lc, az, pol)[: len(splines)])
+        tol = 1e-10 * (float(np.max(np.sum(np.abs(S0), axis=0))) + 1e-300)
+        got = np.asarray(F(P), dtype=float)
+        if got.shape != want.shape or not np.all(np.abs(got - want) <= tol):
+            badi = np.nonzero(~(np.abs(got - want) <= tol))[0] if got.shape == want.shape else np.array([0])
+            ctx.fail("oracle", "atomgrid.interpolate:blocks", f"{m} evaluation points: the interpolant differs from sum_lm spline_lm(r) Y_lm at {badi.size} of them (first index {int(badi[0])}, "
+                     f"last {int(badi[-1])}); shape {got.shape}", witness=dict(info=info, function=bl.to_json(), npoints=m, seed=seed),
+                     snippet=SNIP_BLOCKS.format(info=info, bl=bl.to_json(), seed=seed, m=m, tol=tol))
+        sph = np.asarray(g.convert_cartesian_to_spherical(P), dtype=float)
+        if sph.shape != (m, 3) or not (np.all(np.abs(sph[:, 0] - rr) <= 1e-13 * (1 + rr)) and np.all(np.abs(np.sin(sph[:, 1] - az)) <= 1e-12) and np.all(np.abs(sph[:, 2] - pol) <= 1e-12)):
+            ctx.fail("oracle", "atomgrid.convert_cartesian_to_spherical:blocks", f"{m} points: the spherical coordinates differ from the point-by-point computation", witness=dict(info=info, npoints=m, seed=seed))
+        k = 1000 if m < 5000 else m // 3 + 1
+        for fl in [(0, False, False), (1, True, False), (2, False, True)] + ([(1, False, False)] if m <= 20001 else []):
+            a = np.asarray(F(P, *fl), dtype=float)
+            p1, p2 = np.asarray(F(P[:k].copy(), *fl), dtype=float), np.asarray(F(P[k:].copy(), *fl), dtype=float)
+            if fl == (1, True, False):
+                b = np.concatenate([np.concatenate([p1[c * k:(c + 1) * k], p2[c * (m - k):(c + 1) * (m - k)]]) for c in range(3)]) if p1.shape == (3 * k,) and p2.shape == (3 * (m - k),) else np.array([])
+            else:
+                b = np.concatenate([p1, p2])
+            if a.shape != b.shape or not _cmp_arrays(a, b, 1e-12, scale=None, atol=1e-13 * (float(np.max(np.abs(vals))) + 1e-300)):
+                ctx.fail("oracle", "atomgrid.interpolate:blocks", f"{m} evaluation points, deriv={fl[0]}, deriv_spherical={fl[1]}, only_radial_deriv={fl[2]}: the report for all points is not the one for the "
+                         f"first {k} followed by the one for the other {m - k}", witness=dict(info=info, function=bl.to_json(), npoints=m, seed=seed, split=k))
+    # many radial shells
+    for n in ([1025] + ([4097] if big else [])):
+        r = np.cumsum(np.array([rng.uniform(0.004, 0.012) for _ in range(n)])) * (1025.0 / n)
+        w = np.array([rng.uniform(0.5, 1.5) for _ in range(n)]) * 0.008
+        infon = dict(n=n, method="lebedev", degs=[(3, 5)[(i * 7 // 3) % 2] for i in range(n)], zero="none", center=[0.25, -0.5, 1.0], rotate=0, r=r.tolist(), w=w.tolist())
+        gn = _build(M, infon)
+        bln = BandLimited(rng, 1, smooth=True, rscale=2.0)
+        vn = _grid_values(M, gn, bln)
+        ctx.count(["oracle-blocks", "shells", n], nontrivial=True, tag=f"oracle:blocks:shells:{n}")
+        for op in ("iac", "rcs", "interp"):
+            msg = _clause(M, gn, bln.g(gn.rgrid.points), vn, vn.copy(), op)
+            if msg:
+                ctx.fail("oracle", f"atomgrid.{OPNAME[op]}:blocks", f"{n} radial shells (degrees 3 / 5 alternating irregularly): {msg}", witness=dict(n_shells=n, function=bln.to_json(), info=dict(infon, r="cumsum", w="…")),
+                         snippet=SNIP_GENERIC.format(info=infon, bl=bln.to_json(), clause=f"{OPNAME[op]} on {n} shells", body=SNIP_CLAUSE + f"\nerr, tol = clause(grid, gfun(grid.rgrid.points), vals, vals.copy(), {op!r})\nassert err <= tol, (err, tol)"))
+                break
+    # many functions at once
+    K = 1025
+    base = np.array([_grid_values(M, g, BandLimited(rng, rng.choice([0, 1]), smooth=True)) for _ in range(3)])
+    e3 = np.array([np.asarray(g.integrate_angular_coordinates(b.copy()), dtype=float) for b in base])
+    C3 = ctx.np_rng.normal(size=(K, 3))
+    A = np.asarray(g.integrate_angular_coordinates(C3 @ base), dtype=float)
+    ctx.count(["oracle-blocks", "functions", K, info], nontrivial=True, tag=f"oracle:blocks:functions:{K}")
+    if A.shape != (K, g.n_shells) or not np.all(np.abs(A - C3 @ e3) <= 1e-11 * (float(np.max(np.abs(e3))) * 3 + 1e-300) * 5):
+        ctx.fail("oracle", "atomgrid.integrate_angular_coordinates:blocks", f"{K} functions (linear combinations of three band-limited ones) stacked in func_vals: the angular integrals {A.shape} are not the same "
+                 "combinations of the three", witness=dict(info=info, nfunctions=K))
+
+
+def _oracle_orders(ctx, M, budget):
+    """class 22: radial nodes in descending and in shuffled order (and the descending grid the library itself makes with a decreasing map):
+    the per-shell clauses refer to each shell on its own, so the order cannot matter; the spline-based entry points may reject such a grid
+    (SciPy needs increasing knots) but must not answer wrongly. Evaluation points in descending-radius and shuffled order."""
+    import importlib
+    rng = ctx.rng
+    big = budget == "large" or ctx.thorough
+    for it in range(6 if big else 3):
+        order = ["descending", "shuffled", "library-descending"][it % 3]
+        # the descending grid always has its r = 0 node (now last)
+        _, info = _atom_grid(ctx, M, n=rng.choice([3, 4, 5]), cap=9, mixed=True, zero_kind="zero" if order == "descending" else rng.choice(["none", "zero"]))
+        n = info["n"]
+        if order == "library-descending":
+            od, rt = M[1], importlib.import_module("grid.rtransform")
+            rg = rt.MultiExpRTransform(1e-3, 1.5).transform_1d_grid(od.GaussLegendre(n))
+            r, w = np.array(rg.points, dtype=float), np.array(rg.weights, dtype=float)
+            if not np.all(np.diff(r) < 0):
+                order = "library-ascending"
+            infop = dict(info, r=r.tolist(), w=w.tolist(), zero="none")
+        else:
+            perm = list(range(n))[::-1] if order == "descending" else rng.sample(range(n), n)
+            if perm == sorted(perm):
+                perm = perm[::-1]
+            infop = dict(info, r=[info["r"][k] for k in perm], w=[info["w"][k] for k in perm], degs=[info["degs"][k] for k in perm])
+        ctx.count(["oracle-orders", order, infop], nontrivial=True, tag="oracle:orders:radial:" + order)
+        try:
+            gp = _build(M, infop)
+        except Exception as e:  # noqa: BLE001
+            ctx.tagc(f"info:orders:{order}:constructor-rejects:{type(e).__name__}")
+            continue
+        bl = BandLimited(rng, int(min(gp.degrees)) // 2, smooth=True)
+        vals = _grid_values(M, gp, bl)
+        G = bl.g(gp.rgrid.points)
+        wit = dict(info=infop, function=bl.to_json(), order=order)
+        msg = _clause(M, gp, G, vals, vals.copy(), "iac")
+        if msg:
+            ctx.fail("oracle", "atomgrid.integrate_angular_coordinates:orders", f"radial nodes in {order} order {infop['r']}: {msg}", witness=wit,
+                     snippet=SNIP_GENERIC.format(info=infop, bl=bl.to_json(), clause="angular integrals, radial nodes in " + order + " order",
+                                                 body=SNIP_CLAUSE + "\nerr, tol = clause(grid, gfun(grid.rgrid.points), vals, vals.copy(), 'iac')\nassert err <= tol, (err, tol)"))
+        A = np.asarray(gp.integrate_angular_coordinates(vals.copy()), dtype=float)
+        rew, tot = float(np.sum(gp.rgrid.points ** 2 * gp.rgrid.weights * A)), float(gp.integrate(vals))
+        if not close(rew, tot, rtol=1e-10, scale=float(np.sum(np.abs(vals * gp.weights))) + 1e-300):
+            ctx.fail("oracle", "atomgrid.integrate_angular_coordinates:orders", f"radial nodes in {order} order: sum_i r_i^2 w_i A_i = {rew!r}, grid integral {tot!r}", witness=wit)
+        for op in ("rcs", "interp", "avg"):
+            try:
+                msg = _clause(M, gp, G, vals, vals.copy(), op)
+            except ValueError:
+                ctx.tagc(f"info:orders:{order}:{op}:rejected")
+                continue
+            ctx.tagc(f"info:orders:{order}:{op}:accepted")
+            if msg:
+                ctx.fail("oracle", f"atomgrid.{OPNAME[op]}:orders", f"radial nodes in {order} order {infop['r']}: accepted, but {msg}", witness=wit)
+    # evaluation points in another order
+    g, info = _agg_grid(ctx, M, rotate=rng.choice([0, 6])) if rng.random() < 0.5 else _atom_grid(ctx, M, n=rng.choice([3, 4]), cap=9)
+    f = ctx.np_rng.normal(size=g.size)
+    F = g.interpolate(f.copy())
+    P = _eval_points(rng, g, 9)
+    rr = np.linalg.norm(P - g.center, axis=1)
+    for name, perm in (("descending radius", np.argsort(-rr)), ("shuffled", np.array(rng.sample(range(len(P)), len(P)))), ("reversed", np.arange(len(P))[::-1])):
+        ctx.count(["oracle-orders", "points", name, info], nontrivial=True, tag="oracle:orders:points:" + name.split()[0])
+        for fl in FLAGS:
+            a = np.asarray(F(P, *fl), dtype=float)
+            b = np.asarray(F(P[perm].copy(), *fl), dtype=float)
+            want = a.reshape(3, -1)[:, perm].reshape(-1) if fl == (1, True, False) else a[perm]
+            if b.shape != want.shape or not _cmp_arrays(b, want, 1e-12, scale=None, atol=1e-12 * (float(np.max(np.abs(f))) + 1e-300)):
+                ctx.fail("oracle", "atomgrid.interpolate:orders", f"evaluation points in {name} order, deriv={fl[0]}, deriv_spherical={fl[1]}, only_radial_deriv={fl[2]}: the report is not the permuted report "
+                         "of the original order", witness=dict(info=info, points=P[perm], order=name))
+                break
+
+
+def _r5_precision(ctx, M):
+    """class 23: points, centre and function values handed over directly as float16 / longdouble (float32 and integers: round 2): answers
+    against those for the same values as float64 (1e-13; the values are exactly representable in the narrow type), the argument unchanged
+    afterwards (dtype and bytes), a second request with the same object equal to the first."""
+    rng = ctx.rng
+    g, info = _agg_grid(ctx, M, rotate=rng.choice([0, 8])) if rng.random() < 0.5 else _atom_grid(ctx, M, n=rng.choice([2, 3, 4]), cap=9)
+    N = g.size
+    P64 = np.rint((_eval_points(rng, g, 4) - g.center) * 8) / 8 + np.rint(g.center * 8) / 8
+    f64 = ctx.np_rng.normal(size=N).astype(np.float16).astype(np.float64)
+    c64 = np.rint(np.array([rng.uniform(-2, 2) for _ in range(3)]) * 8) / 8
+    for dt in (np.float16, np.longdouble):
+        name = np.dtype(dt).name
+        ctx.count(["precision", name, info], nontrivial=True, tag="precision:" + name)
+        # float16: exactly representable values, float64 arithmetic inside; longdouble: the radius is formed in extended precision and rounded
+        # once more (second radial derivatives of the splines amplify that last bit)
+        ptol = 1e-12 if dt is np.float16 else 1e-9
+        if dt is np.longdouble:
+            # values that need all 53 bits (a detour through a narrower type would show)
+            P64 = _eval_points(rng, g, 4)[:4]          # generic points (next to the polar axis arccos in extended precision resolves angles that float64 rounds to 0 / pi)
+            f64 = ctx.np_rng.normal(size=N)
+            c64 = np.array([rng.uniform(-2, 2) for _ in range(3)])
+        P, f, c = P64.astype(dt), f64.astype(dt), c64.astype(dt)
+        kp, kf, kc = P.copy(), f.copy(), c.copy()
+        reqs = [("convert_cartesian_to_spherical(points)", lambda: g.convert_cartesian_to_spherical(P), lambda h: h.convert_cartesian_to_spherical(P64.copy())),
+                ("convert_cartesian_to_spherical(points, center)", lambda: g.convert_cartesian_to_spherical(P, c), lambda h: h.convert_cartesian_to_spherical(P64.copy(), c64.copy())),
+                ("integrate_angular_coordinates(func_vals)", lambda: g.integrate_angular_coordinates(f), lambda h: h.integrate_angular_coordinates(f64.copy()))]
+        if g.n_shells >= 2:
+            reqs += [("spherical_average(func_vals).c", lambda: g.spherical_average(f).c, lambda h: h.spherical_average(f64.copy()).c),
+                     ("radial_component_splines(func_vals)", lambda: np.array([s.c for s in g.radial_component_splines(f)]), lambda h: np.array([s.c for s in h.radial_component_splines(f64.copy())]))]
+            for fl in FLAGS:
+                reqs.append((f"interpolate(func_vals)(points, {fl[0]}, {fl[1]}, {fl[2]})", lambda fl=fl: g.interpolate(f)(P, *fl), lambda h, fl=fl: h.interpolate(f64.copy())(P64.copy(), *fl)))
+        for text, call, refcall in reqs:
+            try:
+                a = np.asarray(call())
+                b = np.asarray(call())
+            except TypeError as e:
+                if dt is np.longdouble and "sph_harm_y" in str(e):
+                    # pinned tree: the derivative harmonics go through SciPy's sph_harm_y, which has no extended-precision loop — a rejection
+                    ctx.tagc("info:precision:longdouble-points:derivative-reports-rejected-by-scipy")
+                    continue
+                ctx.fail("corr", "atomgrid:precision", f"{text} with {name} arguments raised {type(e).__name__}: {e}", witness=dict(info=info, dtype=name, points=P64))
+                continue
+            except Exception as e:  # noqa: BLE001
+                ctx.fail("corr", "atomgrid:precision", f"{text} with {name} arguments raised {type(e).__name__}: {e}", witness=dict(info=info, dtype=name, points=P64))
+                continue
+            want = np.asarray(refcall(_build(M, info)), dtype=float)
+            af = np.asarray(a, dtype=float)
+            if dt is np.float16 and "center)" in text:
+                # points and centre both in half precision: the difference and the norm are formed in half precision (the precision the caller
+                # chose): the radius to 5e-3, the angles are not compared
+                if af.shape != want.shape or not np.all(np.abs(af[:, 0] - want[:, 0]) <= 5e-3 * (1 + np.abs(want[:, 0]))):
+                    ctx.fail("corr", "atomgrid:precision", f"{text} with float16 arguments: radii differ from the float64 ones by more than half precision", witness=dict(info=info, dtype=name, points=P64))
+                ctx.tagc("info:precision:float16-points-and-centre:half-precision-arithmetic")
+            elif af.shape != want.shape or not _cmp_arrays(af, want, ptol, scale=None, atol=ptol * (1.0 + float(np.max(np.abs(want))) if want.size else 1.0)):
+                ctx.fail("corr", "atomgrid:precision", f"{text} with {name} arguments differs from the answer for the same values as float64", witness=dict(info=info, dtype=name, points=P64))
+            if not _same(a, b):
+                ctx.fail("corr", "atomgrid:precision", f"{text} with {name} arguments: a second request with the same argument objects gives another answer", witness=dict(info=info, dtype=name, points=P64))
+        if not (P.dtype == kp.dtype and f.dtype == kf.dtype and c.dtype == kc.dtype and _same(P, kp) and _same(f, kf) and _same(c, kc)):
+            ctx.fail("corr", "atomgrid.interpolate:modifies-input", f"{name} arguments (points / func_vals / center) were changed by the requests", witness=dict(info=info, dtype=name))
+
+
+def _r5_identity(ctx, M):
+    """class 25: one func_vals buffer, one points buffer and one centre buffer, overwritten in place between requests (buf[:] = new, buf *= c);
+    every answer against a newly built grid given a fresh copy of the new contents. One degrees array, one centre array and one OneDGrid
+    overwritten in place between two constructions."""
+    rng = ctx.rng
+    ag, od = M[0], M[1]
+    g, info = _agg_grid(ctx, M, rotate=rng.choice([0, 8])) if rng.random() < 0.5 else _atom_grid(ctx, M, n=rng.choice([2, 3, 4]), cap=9)
+    N = g.size
+    f1, f2 = ctx.np_rng.normal(size=N), ctx.np_rng.normal(size=N) * 0.5
+    P1 = _eval_points(rng, g, 3)
+    P2 = P1[::-1] * 0.75 + 0.125
+    ops = ["iac"] + (["avg", "rcs", "interp"] if g.n_shells >= 2 else [])
+    fbuf, pbuf = f1.copy(), P1.copy()
+    stages = [("initial contents", f1, P1), ("buf[:] = new", f2, P2), ("buf *= 2.5", f2 * 2.5, P2 * 2.5), ("buf[:] = first contents", f1, P1)]
+    ctx.count(["identity", info], nontrivial=True, tag="identity:requests")
+    Fkeep = None
+    for si, (what, fc, pc) in enumerate(stages):
+        if si == 1:
+            fbuf[:] = f2
+            pbuf[:] = P2
+        elif si == 2:
+            fbuf *= 2.5
+            pbuf *= 2.5
+        elif si == 3:
+            fbuf[...] = f1
+            pbuf[...] = P1
+        for op in ops:
+            got = _run_op(g, op, fbuf, pbuf)
+            want = _run_op(_build(M, info), op, fc.copy(), pc.copy())
+            if not _same(got, want):
+                ctx.fail("corr", f"atomgrid.{OPNAME[op]}:identity", f"{OPNAME[op]} with one func_vals / points buffer object overwritten in place ({[s[0] for s in stages[:si + 1]]}): the answer is not the one for a "
+                         "fresh copy of the current contents", witness=dict(info=info, stage=what, points=pc))
+                return
+        s1 = np.asarray(g.convert_cartesian_to_spherical(pbuf))
+        if not _same(s1, np.asarray(_build(M, info).convert_cartesian_to_spherical(pc.copy()))):
+            ctx.fail("corr", "atomgrid.convert_cartesian_to_spherical:identity", f"one points buffer overwritten in place ({what}): the spherical coordinates are not those of the current contents",
+                     witness=dict(info=info, stage=what, points=pc))
+        if g.n_shells >= 2:
+            # an interpolant made earlier keeps its function; its points buffer changes
+            if Fkeep is None:
+                Fkeep = g.interpolate(f1.copy())
+            a = np.asarray(Fkeep(pbuf, 1))
+            if not _same(a, np.asarray(_build(M, info).interpolate(f1.copy())(pc.copy(), 1))):
+                ctx.fail("corr", "atomgrid.interpolate:identity", f"one interpolant, one points buffer overwritten in place ({what}): the report is not the one for the current contents",
+                         witness=dict(info=info, stage=what, points=pc))
+    cbuf = np.array([0.5, -0.25, 1.0])
+    a = g.convert_cartesian_to_spherical(P1, center=cbuf)
+    cbuf[:] = [-1.0, 0.75, 0.0]
+    b = g.convert_cartesian_to_spherical(P1, center=cbuf)
+    if not (_same(b, _build(M, info).convert_cartesian_to_spherical(P1.copy(), center=np.array([-1.0, 0.75, 0.0]))) and _same(a, _build(M, info).convert_cartesian_to_spherical(P1.copy(), center=np.array([0.5, -0.25, 1.0])))):
+        ctx.fail("corr", "atomgrid.convert_cartesian_to_spherical:identity", "one centre buffer overwritten in place between two requests: the second answer is not the one for the new centre", witness=dict(info=info, points=P1))
+    # constructions
+    ctx.count(["identity", "constructions", info], nontrivial=True, tag="identity:constructions")
+    rarr, warr = np.array(info["r"]), np.array(info["w"])
+    dbuf, cbuf = np.array(info["degs"], dtype=np.int64), np.array(info["center"], dtype=float)
+    kw = dict(rotate=int(info["rotate"]), method=info["method"])
+    rg = od.OneDGrid(rarr, warr, (0, np.inf))
+    gA = ag.AtomGrid(rg, degrees=dbuf, center=cbuf, **kw)
+    fA = ctx.np_rng.normal(size=gA.size)
+    refA = _run_op(gA, "iac", fA.copy(), P1)
+    degs2 = list(info["degs"][1:]) + [info["degs"][0]]
+    dbuf[:] = degs2
+    cbuf += np.array([0.5, 0.0, -1.0])
+    info2 = dict(info, degs=degs2, center=cbuf.tolist())
+    gB = ag.AtomGrid(rg, degrees=dbuf, center=cbuf, **kw)
+    ref = _build(M, info2)
+    fB = ctx.np_rng.normal(size=ref.size)
+    if gB.size != ref.size or not (_same(gB.points, ref.points) and _same(gB.weights, ref.weights) and _same(np.asarray(gB.indices), np.asarray(ref.indices))
+                                   and all(_same(_run_op(gB, op, fB.copy(), P1), _run_op(ref, op, fB.copy(), P1)) for op in ops)):
+        ctx.fail("corr", "atomgrid:identity-construction", "a second AtomGrid built from the same degrees / centre array objects after they were overwritten in place is not the grid of the new contents",
+                 witness=dict(info=info2, first=info))
+    ref_first = _build(M, dict(info))
+    if not _same(np.asarray(gA.degrees), np.asarray(ref_first.degrees)) or not _same(_run_op(gA, "iac", fA.copy(), P1), refA):
+        ctx.tagc("info:identity:first-grid-follows-later-edits-of-the-degrees-array")
+
+
+def _corr_round5(ctx, M, add, parts):
+    for _ in range(ctx.n(2, 12)):
+        parts.run("atomgrid:precision", lambda: _r5_precision(ctx, M))
+    for _ in range(ctx.n(2, 12)):
+        parts.run("atomgrid:identity", lambda: _r5_identity(ctx, M))
+
+
 def oracle(ctx: Ctx, budget: str):
     M = _mods()
     rng = ctx.rng
@@ -3250,7 +3591,9 @@ def oracle(ctx: Ctx, budget: str):
                      ("atomgrid.interpolate:single-shell", _oracle_single_shell),
                      # round 4
                      ("atomgrid.interpolate:object-kinds", _oracle_object_kinds), ("atomgrid.interpolate:value-kinds", _oracle_complex),
-                     ("atomgrid.interpolate:real-rgrid", _oracle_real_rgrids), ("molgrid.interpolate:extreme", _oracle_mol_extreme)]:
+                     ("atomgrid.interpolate:real-rgrid", _oracle_real_rgrids), ("molgrid.interpolate:extreme", _oracle_mol_extreme),
+                     # round 5
+                     ("atomgrid.interpolate:blocks", _oracle_blocks), ("atomgrid.interpolate:orders", _oracle_orders)]:
         parts.run(name, lambda fn=fn: fn(ctx, M, budget))
     parts.finish()
 
